@@ -6,7 +6,7 @@
    policy changes) under ANY schedule.
      act p   = the pc p owns the open write transaction      wo p = the event p is queued on
      wq s    = threads owning the events of  _write_event ++ _write_waiters  (ghost, same order)
-     arrivals/admitted/ended = writers in the order of their first critical section in writer(),
+     arrivals/granted/ended = writers in the order of their first critical section in writer(),
                                of their admission, of the end of their transaction (ghost) *)
 From DV Require Import Base.Prelude Model.VersM Model.WritersM.
 From DV Require Import Proofs.VersInv Proofs.VersThms Proofs.WritersInv Proofs.WritersSerial Proofs.WritersNoFail Proofs.WritersThms.
@@ -22,11 +22,11 @@ Theorem write_txn_owner : forall s t, Reachable s -> (wtxn s = Some t <-> act (p
 Proof. exact T_write_txn_owner. Qed.
 Print Assumptions write_txn_owner.
 
-(* writers are admitted in the order they arrived: the arrival order is the admitted writers followed
+(* writers are granted in the order they arrived: the arrival order is the granted writers followed
    by the queue, whose order is that of the events in _write_event ++ _write_waiters ... *)
 Theorem fifo : forall s,
   Reachable s ->
-  arrivals s = admitted s ++ wq s /\
+  arrivals s = granted s ++ wq s /\
   Forall2 (fun t e => wo (pcs s t) = Some e) (wq s) (Q s) /\
   (forall t e, wo (pcs s t) = Some e -> In t (wq s)).
 Proof. exact T_fifo. Qed.
@@ -35,7 +35,7 @@ Print Assumptions fifo.
 (* ... and an admission takes the head of that queue, or a newcomer only when the queue is empty *)
 Theorem admission_order : forall s t ev,
   Reachable s -> pcs s t = Crit (CWriterTest ev) ->
-  admitted (step s t) = admitted s ++ [t] ->
+  granted (step s t) = granted s ++ [t] ->
   (exists rest, ev <> None /\ wq s = t :: rest /\ wq (step s t) = rest) \/
   (ev = None /\ wq s = [] /\ wq (step s t) = []).
 Proof. exact T_admission_order. Qed.
@@ -49,12 +49,12 @@ Theorem no_lost_wakeup : forall s,
 Proof. exact T_no_lost_wakeup. Qed.
 Print Assumptions no_lost_wakeup.
 
-(* a woken writer is admitted by its next critical section (the loop in writer() runs at most twice) *)
-Theorem woken_writer_is_admitted : forall s t e,
+(* a woken writer is granted by its next critical section (the loop in writer() runs at most twice) *)
+Theorem woken_writer_is_granted : forall s t e,
   Reachable s -> pcs s t = Crit (CWriterTest (Some e)) ->
-  pcs (step s t) t = Rel SetupId /\ wtxn (step s t) = Some t /\ admitted (step s t) = admitted s ++ [t].
-Proof. exact T_woken_writer_is_admitted. Qed.
-Print Assumptions woken_writer_is_admitted.
+  pcs (step s t) t = Rel SetupId /\ wtxn (step s t) = Some t /\ granted (step s t) = granted s ++ [t].
+Proof. exact T_woken_writer_is_granted. Qed.
+Print Assumptions woken_writer_is_granted.
 
 (* no deadlock: while any thread is unfinished some thread can move *)
 Theorem deadlock_free : forall s t,
@@ -70,7 +70,7 @@ Proof. exact T_progress. Qed.
 Print Assumptions progress.
 
 (* ... so with finitely many unfinished threads every run is finite (and, by deadlock_free, can only
-   stop when every thread is Done: every waiting writer is eventually admitted and ends) *)
+   stop when every thread is Done: every waiting writer is eventually granted and ends) *)
 Theorem runs_are_bounded : forall sch s ts,
   Reachable s -> NoDup ts -> (forall t, ~ In t ts -> pcs s t = Done) ->
   valid_sched s sch -> (length sch <= total s ts)%nat.
@@ -82,7 +82,7 @@ Print Assumptions runs_are_bounded.
 Theorem serial_equivalence : forall s,
   Reachable s ->
   hist (vz s) = serial (map (prg s) (ended s)) /\
-  admitted s = ended s ++ match wtxn s with Some t => [t] | None => [] end /\
+  granted s = ended s ++ match wtxn s with Some t => [t] | None => [] end /\
   (exists dropped, hist (vz s) = dropped ++ versions (vz s)) /\
   (exists v, last_opt (versions (vz s)) = Some v /\ last_opt (hist (vz s)) = Some v).
 Proof. exact T_serial_equivalence. Qed.
@@ -90,9 +90,9 @@ Print Assumptions serial_equivalence.
 
 Theorem final_state : forall s,
   Reachable s -> (forall t, pcs s t = Done) ->
-  wtxn s = None /\ wq s = [] /\ arrivals s = admitted s /\ ended s = admitted s /\
-  hist (vz s) = serial (map (prg s) (admitted s)) /\
-  last_opt (versions (vz s)) = last_opt (serial (map (prg s) (admitted s))).
+  wtxn s = None /\ wq s = [] /\ arrivals s = granted s /\ ended s = granted s /\
+  hist (vz s) = serial (map (prg s) (granted s)) /\
+  last_opt (versions (vz s)) = last_opt (serial (map (prg s) (granted s))).
 Proof. exact T_final_state. Qed.
 Print Assumptions final_state.
 
@@ -124,7 +124,7 @@ Print Assumptions no_failure.
 Theorem orders_append_only : forall s t,
   Reachable s -> enabled s t = true ->
   (arrivals (step s t) = arrivals s \/ arrivals (step s t) = arrivals s ++ [t]) /\
-  (admitted (step s t) = admitted s \/ admitted (step s t) = admitted s ++ [t]) /\
+  (granted (step s t) = granted s \/ granted (step s t) = granted s ++ [t]) /\
   (ended (step s t) = ended s \/ ended (step s t) = ended s ++ [t]).
 Proof. exact T_orders_append_only. Qed.
 Print Assumptions orders_append_only.
@@ -165,7 +165,7 @@ Definition ex_progs (t : nat) : prog :=
   | _ => PNone
   end.
 
-(* writer 0 admitted; writers 1, 2 arrive and queue; reader opens; writer 0 commits and wakes 1 *)
+(* writer 0 granted; writers 1, 2 arrive and queue; reader opens; writer 0 commits and wakes 1 *)
 Definition ex_sched : list nat :=
   [0;0;0;0;0; 1;1;1; 2;2;2; 3;3;3; 0;0;0;0]%nat.
 
@@ -175,7 +175,7 @@ Example ex_reachable : Reachable ex_state.
 Proof. exists ex_progs, ex_sched. reflexivity. Qed.
 
 Example ex_queue : wtxn ex_state = None /\ wq ex_state = [1; 2]%nat /\ wevent ex_state = Some 0%nat /\
-                   waiters ex_state = [1%nat] /\ arrivals ex_state = [0; 1; 2]%nat /\ admitted ex_state = [0%nat] /\
+                   waiters ex_state = [1%nat] /\ arrivals ex_state = [0; 1; 2]%nat /\ granted ex_state = [0%nat] /\
                    map vid (versions (vz ex_state)) = [1; 2]%Z.
 Proof. vm_compute. repeat split; reflexivity. Qed.
 
@@ -191,6 +191,6 @@ Proof. eexists. vm_compute. reflexivity. Qed.
 Example ex_final :
   let s := run_sched (init ex_progs) (ex_sched ++ [1;1;1;1;1;1;1;1;1;1;1;1; 2;2;2;2;2;2;2;2;2;2;2; 3;3;3;3;3]%nat) in
   forallb (fun t => match pcs s t with Done => true | _ => false end) [0;1;2;3]%nat = true /\
-  admitted s = [0; 1; 2]%nat /\ map vid (hist (vz s)) = [1; 2; 3]%Z /\
+  granted s = [0; 1; 2]%nat /\ map vid (hist (vz s)) = [1; 2; 3]%Z /\
   last_opt (versions (vz s)) = Some (mkV 3 [(2, 2); (3, 1)]%Z).
 Proof. vm_compute. repeat split; reflexivity. Qed.
